@@ -145,8 +145,10 @@ RefSmb2SessionSetup(seg) ==
 
 (* reference application reply; << >> = no application data.  Only "must" *)
 (* requests are answered.                                                  *)
-RefApp(transport, before, seg, ctx, uaddr) ==
-    LET c == Classify(transport, before, seg, ctx) IN
+RefApp(transport, before, seg0, ctx, uaddr) ==
+    LET c == Classify(transport, before, seg0, ctx)
+        seg == AppMsg(transport, before, seg0)
+    IN
     IF c.ans # "must" THEN << >>
     ELSE CASE c.proto = "HTTP"  -> REF_HTTP_HEAD \o REF_HTTP_BODY
            [] c.proto = "SSH"   -> SSH_REPLY
@@ -154,7 +156,7 @@ RefApp(transport, before, seg, ctx, uaddr) ==
            [] c.proto = "STUN"  -> RefStun(seg, ctx)
            [] c.proto = "DNS"   -> RefDns(seg, ctx)
            [] c.proto = "RPC_UDP" -> RefRpc(seg, 0, ctx, uaddr)
-           [] c.proto = "RPC_TCP" -> RefRpc(before \o seg, 4, ctx, uaddr)
+           [] c.proto = "RPC_TCP" -> RefRpc(before \o seg0, 4, ctx, uaddr)
            [] c.proto = "SMB1" -> IF S1Cmd(seg) = 114 THEN RefSmb1Negotiate(seg) ELSE RefSmb1SessionSetup(seg)
            [] c.proto = "SMB2" -> IF S2Cmd(seg) = 0 THEN RefSmb2Negotiate(seg) ELSE RefSmb2SessionSetup(seg)
            [] OTHER -> << >>
